@@ -10,8 +10,64 @@ pub type Rg = (B, B);
 
 #[derive(Clone, Copy, Debug, PartialEq, Eq, Hash)]
 pub enum Step {
+    /// next()
     F,
+    /// next_back()
     B,
+    /// nth(k), k >= 1: skips k elements from the front, yields the next one
+    N(u8),
+    /// nth_back(k), k >= 1
+    NB(u8),
+}
+
+/// apply one step to a double-ended iterator
+#[inline]
+pub fn apply_step<I: DoubleEndedIterator>(it: &mut I, s: Step) -> Option<I::Item> {
+    match s {
+        Step::F => it.next(),
+        Step::B => it.next_back(),
+        Step::N(k) => it.nth(k as usize),
+        Step::NB(k) => it.nth_back(k as usize),
+    }
+}
+
+/// the not-yet-consumed window lo..hi of positions; `step` returns the yielded position
+#[derive(Clone, Copy, Debug, PartialEq, Eq)]
+pub struct Win {
+    pub lo: usize,
+    pub hi: usize,
+}
+impl Win {
+    pub fn len(&self) -> usize {
+        self.hi - self.lo
+    }
+    pub fn step(&mut self, s: Step) -> Option<usize> {
+        let rem = self.hi - self.lo;
+        match s {
+            Step::F | Step::N(_) => {
+                let k = if let Step::N(k) = s { k as usize } else { 0 };
+                if k < rem {
+                    let p = self.lo + k;
+                    self.lo = p + 1;
+                    Some(p)
+                } else {
+                    self.lo = self.hi;
+                    None
+                }
+            }
+            Step::B | Step::NB(_) => {
+                let k = if let Step::NB(k) = s { k as usize } else { 0 };
+                if k < rem {
+                    let p = self.hi - 1 - k;
+                    self.hi = p;
+                    Some(p)
+                } else {
+                    self.hi = self.lo;
+                    None
+                }
+            }
+        }
+    }
 }
 
 #[derive(Clone, Copy, Debug, PartialEq, Eq, Hash)]
@@ -343,7 +399,32 @@ pub fn scripts_upto(maxlen: usize) -> Vec<Vec<Step>> {
 }
 
 pub fn script_str(s: &[Step]) -> String {
-    s.iter().map(|x| if *x == Step::F { 'f' } else { 'b' }).collect()
+    s.iter()
+        .map(|x| match x {
+            Step::F => "f".to_string(),
+            Step::B => "b".to_string(),
+            Step::N(k) => format!("n{}", k),
+            Step::NB(k) => format!("r{}", k),
+        })
+        .collect()
+}
+
+/// extra scripts exercising nth / nth_back (which an iterator may override)
+pub fn nth_scripts() -> Vec<Vec<Step>> {
+    let mut v = Vec::new();
+    for k in 1..=2u8 {
+        v.push(vec![Step::N(k)]);
+        v.push(vec![Step::NB(k)]);
+        v.push(vec![Step::F, Step::N(k)]);
+        v.push(vec![Step::N(k), Step::B]);
+        v.push(vec![Step::B, Step::NB(k)]);
+        v.push(vec![Step::NB(k), Step::F]);
+        v.push(vec![Step::N(k), Step::NB(1)]);
+    }
+    v.push(vec![Step::N(1), Step::N(1)]);
+    v.push(vec![Step::N(3)]);
+    v.push(vec![Step::NB(3), Step::F]);
+    v
 }
 
 pub fn rg_str(r: Rg) -> String {
